@@ -307,13 +307,13 @@ def rule_bounds(prog: Program, col: Collector) -> None:
     for comp in scope:
         _check_computer(ob, comp, is_sam=comp in sam)
 
-    if pid in ("C01", "C03") and struct is not None:
+    if pid in ("C01", "C03", "C04", "C08") and struct is not None:
         _check_table(ob, prog, struct, analysed)
     if pid == "C03":
         _check_siblings(ob, prog, sa, struct, comps)
     if pid == "C04":
         _check_sam_registry(ob, prog, comps, analysed, sam, sa)
-    if pid == "C08":
+    if pid in ("C08", "C01", "C04"):
         _check_hidden_state(ob, prog, scope)
 
 
@@ -626,22 +626,22 @@ def _check_ub(ob: _Ob, comp: Computer, w: Write, is_sam: bool) -> None:
 # --------------------------------------------------------------------------------------
 
 def _check_table(ob: _Ob, prog: Program, struct: StructInfo, analysed: dict[str, Computer]) -> None:
-    if not ob.rule("B10", {"C01", "C03"}, "relation codes compared by readers are codes the table writer assigns, with the class sets the recurrences need", 3):
+    if not ob.rule("B10", {"C01", "C03", "C04", "C08"}, "relation codes compared by readers are codes the table writer assigns, with the class sets the recurrences need", 3):
         return
     ref = struct.ref
     cc = struct.code_classes
     want = {PSUB: "proper non-empty sub-coalitions", PSUPER: "proper supersets", SELF: "the coalition itself"}
     for cls, text in want.items():
         codes = [k for k, v in cc.items() if v == frozenset({cls})]
-        ob.check("B10", {"C01", "C03"}, len(codes) == 1, ref.where(), ref.short,
+        ob.check("B10", {"C01", "C03", "C04", "C08"}, len(codes) == 1, ref.where(), ref.short,
                  f"exactly one relation code denotes exactly {text} (codes: { {k: sorted(v) for k, v in cc.items()} })",
                  f"table-class:{cls}",
                  "the order of the subscript stores decides which code a row's own entry / the empty coalition ends up with; "
                  "a code that mixes classes makes every reader select wrong candidates")
     for pos_role in ("ALLIDS", "TABLE"):
-        ob.check("B10", {"C01", "C03"}, pos_role in struct.roles.values(), ref.where(), ref.short,
+        ob.check("B10", {"C01", "C03", "C04", "C08"}, pos_role in struct.roles.values(), ref.where(), ref.short,
                  f"returned tuple contains the {pos_role} component", f"table-role:{pos_role}", "")
-    ob.check("B10", {"C01", "C03"}, "SORTED_UP" in struct.roles.values(), ref.where(), ref.short,
+    ob.check("B10", {"C01", "C03", "C04", "C08"}, "SORTED_UP" in struct.roles.values(), ref.where(), ref.short,
              "returned tuple contains the ids sorted by increasing size (argsort of the per-id sizes)", "table-role:SORTED_UP",
              "the cached computers process unknown coalitions in this order")
     seen = set()
@@ -650,7 +650,7 @@ def _check_table(ob: _Ob, prog: Program, struct: StructInfo, analysed: dict[str,
             continue
         seen.add(comp.ref.qual)
         nw = getattr(comp.interp, "never_written", [])
-        ob.check("B10", {"C01", "C03"}, not nw, comp.ref.where(), comp.ref.short,
+        ob.check("B10", {"C01", "C03", "C04", "C08"}, not nw, comp.ref.where(), comp.ref.short,
                  f"every relation code compared is one the writer assigns (unknown: {sorted(set(nw))})", "table-reader-code",
                  "comparing with a code that is never written selects nothing: the reduction runs over an empty set")
 
